@@ -56,6 +56,15 @@ fn read_tree(root: &Path, rel: &Path, out: &mut Map<String, Value>) {
     }
 }
 
+fn as_refusal<T: std::fmt::Debug>(r: &T) -> Option<String> {
+    let s = format!("{r:?}");
+    if s.starts_with("Err(") {
+        Some(s)
+    } else {
+        None
+    }
+}
+
 /// The body of `prepare_project`, statement by statement (comments quote the original).
 fn prepare_project_replica(entry: &str, out_dir: &str) -> Value {
     // let modules = collect_modules(file_path)?;
@@ -104,7 +113,12 @@ fn prepare_project_replica(entry: &str, out_dir: &str) -> Value {
     generator.set_needs_tokio(needs_tokio);
     generator.set_needs_axum(needs_axum);
     for crate_name in &rust_crates {
-        generator.add_rust_crate(crate_name);
+        // Today `add_rust_crate` returns (); if it is changed to return a Result (refusing unknown
+        // crates), the error ends preparation exactly as `?` would in prepare_project.
+        let r = generator.add_rust_crate(crate_name);
+        if let Some(e) = as_refusal(&r) {
+            return json!({"ok": false, "stage": "refused", "err": e, "crate": crate_name});
+        }
     }
 
     let mods_json: Vec<Value> = modules
